@@ -150,6 +150,8 @@ func integerCodecRule(P *Program, R *Report) {
 
 func keyLoaderRule(P *Program, R *Report) {
 	rule := "C18.b"
+	bindFreshObjects = true // presence tests may sit in a predicate method of the key being loaded
+	defer func() { bindFreshObjects = false }()
 	if fn := mustFunc(P, R, rule, kPubBytes); fn != nil {
 		acc := AcceptNilErr(1)
 		for _, f := range []string{"N", "Z", "S"} {
